@@ -55,7 +55,7 @@ def build_model():
     fcntl.flock(lock, fcntl.LOCK_EX)
     try:
         t = time.time()
-        r = sh('cd %s/coq && ([ -f Makefile.coq ] || coq_makefile -f _CoqProject -o Makefile.coq) >/dev/null '
+        r = sh('cd %s/coq && ([ -f Makefile.coq ] && [ Makefile.coq -nt _CoqProject ] || coq_makefile -f _CoqProject -o Makefile.coq) >/dev/null '
                '&& timeout 3000 make -f Makefile.coq -j16 2>&1 | tail -30' % VERIF)
         if r.returncode != 0 or 'Error' in r.stdout:
             raise BuildError('Rocq build failed:\n' + r.stdout[-4000:])
